@@ -17,6 +17,7 @@ import (
 	"github.com/EliCDavis/polyform/modeling"
 	"github.com/EliCDavis/polyform/modeling/meshops"
 	"github.com/EliCDavis/polyform/modeling/primitives"
+	"github.com/EliCDavis/polyform/modeling/repeat"
 	"github.com/EliCDavis/vector/vector2"
 	"github.com/EliCDavis/vector/vector3"
 	"github.com/EliCDavis/vector/vector4"
@@ -393,7 +394,7 @@ func (c *Ctx) smallV3() vector3.Float64 {
 	return vector3.New(float64(c.Rng.Intn(9)-4), float64(c.Rng.Intn(9)-4), float64(c.Rng.Intn(9)-4))
 }
 
-var layoutOps = []string{"unweld", "removeunref", "flip", "topointcloud", "setindices", "setattr", "append", "filter", "split", "weld", "crop", "removenull"}
+var layoutOps = []string{"repeat", "unweld", "removeunref", "flip", "topointcloud", "setindices", "setattr", "append", "filter", "split", "weld", "crop", "removenull"}
 var transformOps = []string{"translate", "scale", "meshscale", "rotate", "applytrs", "center", "normalize", "smoothnormals", "flatnormals", "laplacian"}
 
 // applyOp runs operation `name` of the real packages on m with generated parameters.
@@ -426,6 +427,20 @@ func (c *Ctx) applyOp(name string, m modeling.Mesh) opRun {
 			parts = append(parts, strconv.Itoa(i))
 		}
 		return runOp(name, strings.Join(parts, " ")+" "+ms, false, func() []modeling.Mesh { return one(m.SetIndices(idx)) })
+	case "repeat":
+		// repeat.Mesh(m, transforms): fold of Append(ApplyTRS) from the empty mesh; 0..3 copies
+		k := c.Rng.Intn(4)
+		ts := make([]trs.TRS, k)
+		parts := []string{strconv.Itoa(k)}
+		for i := range ts {
+			p, q, sc := c.smallV3(), c.mquat(), vector3.New(float64(1+c.Rng.Intn(3)), 1, float64(c.Rng.Intn(3)-1))
+			if c.Rng.Intn(2) == 0 {
+				q = quaternion.New(vector3.Zero[float64](), 1)
+			}
+			ts[i] = trs.New(p, q, sc)
+			parts = append(parts, mvF(p), mqF(q), mvF(sc))
+		}
+		return runOp(name, strings.Join(parts, " ")+" "+ms, false, func() []modeling.Mesh { return one(repeat.Mesh(m, ts)) })
 	case "setattr":
 		// SetFloatNAttribute: an existing or a new key; data of the common length, or empty (the key is
 		// deleted), or — on a mesh without attributes — of any length
@@ -682,7 +697,7 @@ func (c *Ctx) applyOp(name string, m modeling.Mesh) opRun {
 
 func (c *Ctx) startMesh() modeling.Mesh {
 	switch c.Rng.Intn(10) {
-	case 8, 9:
+	case 7, 8, 9:
 		c.Note("start:cloud")
 		return c.genMesh(meshGen{topo: []modeling.Topology{modeling.PointTopology}, needPos: c.Rng.Intn(4) != 0, maxVerts: 20, materials: true})
 	case 0:
